@@ -103,6 +103,10 @@ class Staller:
                 rid = dev.all_streams[-1].rid if dev.all_streams else 1
                 if kind == 'foreign':
                     dev.inject(sim.frame(b'WRTE', 4242, 99, b'zz'))
+                elif kind == 'own_wrte':
+                    dev.inject(sim.frame(b'WRTE', rid, lid, b'zz'))
+                elif kind == 'auth_again':
+                    dev.inject(sim.frame(b'AUTH', 1, 0, b'T' * 20))
                 else:
                     dev.inject(sim.frame(b'SYNC', rid, lid, b''))
             stall.w.clock.advance(stall.delay())
@@ -122,6 +126,10 @@ def _run(ctx, w, st, opname, t, r, T):
     kw = {'transport_timeout_s': t, 'read_timeout_s': r}
     if opname == 'connect':
         return w.try_call('connect', **kw)
+    if opname == 'connect_auth':
+        from .c05 import StubSigner
+        at = T if T is not None else None
+        return w.try_call('connect', rsa_keys=[StubSigner(0, [])], auth_timeout_s=at, **kw)
     if opname in ('shell', 'exec_out'):
         return w.try_call(opname, 'cmd0', timeout_s=T, decode=False, **kw)
     if opname == 'root':
@@ -163,7 +171,10 @@ def npackets(mods, shape):
         st.dev.packetize = None
         w = World(ctx, nm, st.dev, impl=shape['impl'])
         _prepare(ctx, st, w, shape['op'], shape)
-        if shape['op'] != 'connect':
+        if shape['op'] == 'connect_auth':
+            from .c05 import make_auth
+            st.dev.auth, _ = make_auth(ctx, 1, ('pubkey',))
+        if not shape['op'].startswith('connect'):
             w.call('connect')
         base = len(st.dev.emitted)
         o = _run(ctx, w, st, shape['op'], None, 10, None)
@@ -183,10 +194,17 @@ def h_stall(ctx, mods, shape):
     # effective timeouts as the property states them
     r_eff = r if T is None else rmin(r, T)
     t_eff = r_eff if t is None else rmin(t, r_eff)
+    if opname == 'connect_auth':
+        # here T is auth_timeout_s (the transport timeout of the final wait), not a whole-command limit
+        r_eff = r
+        t_eff = rmax(T, rmin(t, r) if t is not None else r) if T is not None else (rmin(t, r) if t is not None else r)
     st = Std(ctx, sym_rid=False)
     w = World(ctx, mods, st.dev, impl=shape['impl'], budget=BUDGET + 40)
     _prepare(ctx, st, w, opname, shape)
-    if opname != 'connect':
+    if opname == 'connect_auth':
+        from .c05 import make_auth
+        st.dev.auth, _ = make_auth(ctx, 1, ('never',))
+    if not opname.startswith('connect'):
         o = w.try_call('connect')
         if not o.ok:
             ctx.fail('connect failed', detail=repr(o.exc))
@@ -215,11 +233,15 @@ def h_stall(ctx, mods, shape):
     bound = 4 * (rmax(r_eff, zero) + rmax(t_eff, zero)) + Fraction(8, 1000)    # + 8 x the stub's 1 ms minimum cost of a read
     if opname == 'pull':
         bound = 2 * bound
+    if opname == 'connect_auth':
+        bound = 4 * (rmax(r, zero) + rmax(t_eff, zero) + (rmax(T, zero) if T is not None else 0)) + Fraction(8, 1000)
     if T is not None:
         bound = bound + rmax(T, zero)
     ctx.observe('elapsed', elapsed)
     ctx.check(elapsed <= bound, '%s gives up within 4*(read_timeout + transport_timeout) of the stall (virtual time)' % opname)
     rts = w.wire.read_timeouts[nrt0:]
+    if opname == 'connect_auth':
+        rts = []      # the wait for the user's confirmation uses auth_timeout_s (None = wait for the user) by design
     for rt in rts:
         if rt is None:
             ctx.fail('a transport call was issued with timeout None (would block forever on a silent device)')
@@ -238,7 +260,7 @@ def shapes(tier, seed):
         for Tn in (False, True):
             out.append({'h': 'info', 't_none': tn, 'T_none': Tn})
     oplist = ['connect', 'shell', 'streaming_shell', 'stat', 'list', 'pull', 'push'] + ([] if q else ['exec_out', 'root'])
-    kinds = ['silence', 'eof', 'trickle', 'foreign', 'unexpected']
+    kinds = ['silence', 'eof', 'trickle', 'foreign', 'unexpected', 'own_wrte']
     for impl in ('sync', 'async'):
         for op in oplist:
             base = {'h': 'stall', 'impl': impl, 'op': op}
@@ -249,6 +271,16 @@ def shapes(tier, seed):
                 n = 4
             for after in range(0, n):
                 for kind in kinds:
+                    if kind == 'own_wrte':
+                        # a flood of WRTEs on the own stream is a stall only where the operation waits for an OKAY or a CLSE
+                        if op == 'connect':
+                            continue
+                        if op in ('shell', 'streaming_shell', 'exec_out', 'root') and after != 0:
+                            continue
+                        if op in ('stat', 'list', 'pull') and after not in (0, 1, n - 1):
+                            continue
+                        if op == 'push' and after == n - 2:
+                            continue
                     tcfgs = [{'t': 'sym', 'r': 'sym'}]
                     if kind in ('silence', 'eof'):
                         tcfgs.append({'t': 'none', 'r': 'sym'})
@@ -261,4 +293,11 @@ def shapes(tier, seed):
                         tcfgs.append({'t': 0, 'r': 1})
                     for tc in tcfgs:
                         out.append(dict(base, after=after, kind=kind, **tc))
+    # connect with authentication: all keys rejected, public key offered, then the device only repeats its challenge (or sends
+    # other traffic) instead of CNXN; auth_timeout_s None or symbolic.  (Silence with auth_timeout_s=None waits for the user by design.)
+    for impl in ('sync', 'async'):
+        for kind in ('auth_again', 'foreign', 'eof', 'trickle'):
+            for tc in ({'t': 'sym', 'r': 'sym', 'T': 'none'}, {'t': 'sym', 'r': 'sym', 'T': 'sym'}):
+                out.append({'h': 'stall', 'impl': impl, 'op': 'connect_auth', 'after': 2, 'kind': kind, **tc})
+        out.append({'h': 'stall', 'impl': impl, 'op': 'connect_auth', 'after': 2, 'kind': 'silence', 't': 'sym', 'r': 'sym', 'T': 'sym'})
     return out
